@@ -23,6 +23,7 @@ type Setting struct {
 	MaxOut   int    `json:"max_eliminations_per_sync"`
 	MaxTable int    `json:"max_tables"`
 	Dev      int    `json:"map_order_deviations"`
+	Beside   bool   `json:"second_tournament_in_process,omitempty"` // a second regulator is created and driven along a script after NewRegulator and after every step
 }
 
 // Step is one operation of the alphabet, with the environment answers it ran under.
@@ -120,6 +121,35 @@ type World struct {
 	events   []event
 	problems []problem
 	firstOp  bool // the running operation started with zero tables
+
+	// slices the regulator handed out (callback arguments, SyncState results), kept by the tables as
+	// they were given, next to a private copy: what a table was told must not change afterwards
+	kept []keptSlice
+}
+
+type keptSlice struct {
+	via   string
+	given []string
+	copy  []string
+}
+
+func (w *World) keep(via string, given []string) {
+	if len(given) == 0 {
+		return
+	}
+	if len(w.kept) >= 24 {
+		w.kept = w.kept[1:]
+	}
+	w.kept = append(w.kept, keptSlice{via, given, append([]string{}, given...)})
+}
+
+func (w *World) checkKept() {
+	for _, k := range w.kept {
+		if fmt.Sprint(k.given) != fmt.Sprint(k.copy) {
+			w.bad("handed-out-players-changed", "the players handed out through %s were %v; the same slice now reads %v", k.via, k.copy, k.given)
+			return
+		}
+	}
 }
 
 type problem struct{ prop, sig, msg string }
@@ -161,6 +191,7 @@ func NewWorld(s Setting) *World {
 			id := tableID(w.nextTable)
 			w.everOpened++
 			w.events = append(w.events, event{"request", id, append([]string{}, players...)})
+			w.keep("requestTableFn", players)
 			w.take(players, id, "requestTableFn")
 			w.Tab[id] = append([]string{}, players...)
 			w.capacity("open", id, len(players))
@@ -168,6 +199,7 @@ func NewWorld(s Setting) *World {
 		}),
 		reg.WithAssignPlayersFn(func(id string, players []string) error {
 			w.events = append(w.events, event{"assign", id, append([]string{}, players...)})
+			w.keep("assignPlayersFn", players)
 			if _, ok := w.Tab[id]; !ok {
 				w.bad("callback-unknown-table", "assignPlayersFn names table %s, which does not exist (any more)", id)
 				return nil
@@ -178,7 +210,49 @@ func NewWorld(s Setting) *World {
 			return nil
 		}),
 	)
+	if s.Beside {
+		otherTournament()
+	}
 	return w
+}
+
+// otherTournament is the second tournament of a "beside" exploration: its own regulator (3 per
+// table, 2 to start), its own tables, a fixed script. It is environment: what happens to it is not
+// judged. It runs on a goroutine of its own (another OS thread), so the environment answers that
+// are being enumerated for the regulator under test are not consumed by it.
+func otherTournament() {
+	done := make(chan struct{})
+	go func() {
+		defer close(done)
+		defer func() { recover() }()
+		n := 0
+		tables := []string{}
+		r := reg.NewRegulator(
+			reg.MaxPlayersPerTable(3),
+			reg.MinInitialPlayers(2),
+			reg.WithRequestTableFn(func(players []string) (string, error) {
+				n++
+				id := fmt.Sprintf("other-%d", n)
+				tables = append(tables, id)
+				return id, nil
+			}),
+			reg.WithAssignPlayersFn(func(id string, players []string) error { return nil }),
+		)
+		r.AddPlayers([]string{"o1", "o2", "o3", "o4", "o5"})
+		r.SetStatus(reg.CompetitionStatus(1))
+		r.AddPlayers([]string{"o6", "o7"})
+		for _, t := range append([]string{}, tables...) {
+			r.SyncState(t, 2)
+		}
+		r.SetStatus(reg.CompetitionStatus(2))
+		for _, t := range append([]string{}, tables...) {
+			if rel, _, err := r.SyncState(t, 1); err == nil && rel > 0 {
+				r.ReleasePlayers(t, []string{"o1", "o2", "o3"}[:min(rel, 3)])
+			}
+		}
+		r.AddPlayers([]string{"late"})
+	}()
+	<-done
 }
 
 // take moves players from the queue to table id in the reference model.
@@ -311,6 +385,10 @@ func (w *World) Do(st Step) (res Result) {
 		if r := recover(); r != nil {
 			res.Panic = fmt.Sprint(r)
 		}
+		if w.S.Beside {
+			otherTournament()
+		}
+		w.checkKept()
 		res.Problems = w.problems
 		res.Events = w.events
 	}()
@@ -384,6 +462,7 @@ func (w *World) Do(st Step) (res Result) {
 		}
 		if len(pl) > 0 {
 			w.events = append(w.events, event{"sync-seat", id, append([]string{}, pl...)})
+			w.keep("SyncState", pl)
 			w.take(pl, id, "SyncState")
 			w.Tab[id] = append(w.Tab[id], pl...)
 			w.capacity("sync", id, len(pl))
